@@ -77,6 +77,6 @@ claim("C18", "Theorems C18_tag (inclusive bounds), C18_indirect, C18_nonbranch, 
       "range boundaries on the real code." + COMMON, "DESIGN.md 0.2, 7 C18")
 claim("C19", "Theorems C19 (no @ leaf, key or value survives a successful expansion), C19_reported, C19_named; every reference position x "
       "defined-before/after/undefined on the real code." + COMMON, "DESIGN.md 0.2, 7 C19")
-claim("C20", "Theorems C20_args, C20_required, C20_log, C20_exit on the model of the argparse configuration and main(); python -m jasm.main vs the API "
+claim("C20", "Theorems C20_args_debug / C20_info_irrelevant (the logging options change nothing that is computed); C20_args, C20_required, C20_log, C20_exit on the model of the argparse configuration and main(); python -m jasm.main vs the API "
       "for every option combination, model vs real argparse on random command lines." + COMMON, "DESIGN.md 0.2, 7 C20",
       "argparse internals, logging handlers and exit-status conventions are runtime.")
